@@ -323,6 +323,12 @@ def check(ctx, text, cfgs, origin, reuse=False):
         except RecursionError:
             ctx.count('skipped:resource_limit')
             continue
+        except Exception as e:
+            ctx.hit('obfuscated_print')
+            ctx.violation('C07:printer_raised:%s' % type(e).__name__, {'text': text, 'config': cname, 'reuse': reuse},
+                          'printing with obfuscation raised %s: %s (the output has to exist and parse)\ninput: %r' % (
+                              type(e).__name__, str(e)[:200], text[:300]))
+            break
         ctx.hit('obfuscated_print')
         pr, perr = work.run_ref(plain)
         if pr is None:
